@@ -89,7 +89,7 @@ theorem ids_append_pairwise {ρ σ : Type} (f : ρ → Bool) (g : σ → Bool) (
 /-! ### Registered items -/
 
 /-- Initial count: selector-scoped handlers start inactive, document-level ones always active. -/
-def base (n : Nat) (h : HId) : Nat := if h < n then 0 else 1
+def base (n : Nat) (h : Nat) : Nat := if h < n then 0 else 1
 
 /-- Items of a freshly built vector. -/
 def regItems (n : Nat) (ids : List HId) : List (Item HId) :=
